@@ -7,6 +7,7 @@ func init() {
 	vRegister("H_C10_decoded_parent", H_C10_decoded_parent)
 	vRegister("H_C10_refusals", H_C10_refusals)
 	vRegister("H_C10_independence", H_C10_independence)
+	vRegister("H_C10_concurrent", H_C10_concurrent)
 }
 
 // refCountersignCheck: content must be the deterministic encoding of
@@ -294,5 +295,52 @@ func H_C10_independence() {
 	_, e0 := Countersign0(nil, sp0, a, nil)
 	vAssume(e0 == nil)
 	vAssert("independence: full and abbreviated forms sign different bytes", !vRopeEq(spF.content, sp0.content))
+	vReach("end")
+}
+
+
+// two countersigners at work side by side, each in front of a signer that makes it wait: what each signer reads
+// is the Countersign_structure of its own parent
+func H_C10_concurrent() {
+	mk := func(name string, lo, hi int) *Sign1Message {
+		return &Sign1Message{Headers: Headers{Protected: ProtectedHeader{}, Unprotected: UnprotectedHeader{}},
+			Payload: vBlobN(name+".payload", lo, hi), Signature: vBlobN(name+".sig", 1, 50)}
+	}
+	p1, p2 := mk("p1", 1, 40), mk("p2", 41, 80)
+	ext := mkExternal("ext")
+	sp1 := &lateSpySigner{alg: AlgorithmES256, sig: vBlobN("cs1.sig", 1, 60)}
+	sp2 := &lateSpySigner{alg: AlgorithmES256, sig: vBlobN("cs2.sig", 1, 60)}
+	abbreviated := vChoose("abbreviated", 2) == 1
+	cs1 := &Countersignature{Headers: Headers{Protected: ProtectedHeader{}, Unprotected: UnprotectedHeader{}}}
+	cs2 := &Countersignature{Headers: Headers{Protected: ProtectedHeader{}, Unprotected: UnprotectedHeader{}}}
+	var e1, e2 error
+	vInterleaved(
+		func() {
+			if abbreviated {
+				_, e1 = Countersign0(nil, sp1, p1, ext)
+			} else {
+				e1 = cs1.Sign(nil, sp1, p1, ext)
+			}
+		},
+		func() {
+			if abbreviated {
+				_, e2 = Countersign0(nil, sp2, p2, ext)
+			} else {
+				e2 = cs2.Sign(nil, sp2, p2, ext)
+			}
+		})
+	vAssert("concurrent: both parents can be countersigned", e1 == nil && e2 == nil)
+	if e1 != nil || e2 != nil {
+		return
+	}
+	ctx := "CounterSignatureV2"
+	sp1Prot, sp2Prot := []byte{}, []byte{}
+	if abbreviated {
+		ctx = "CounterSignature0V2"
+	} else {
+		sp1Prot, sp2Prot = protContentOf(cs1.Headers.Protected), protContentOf(cs2.Headers.Protected)
+	}
+	refCountersignCheck("concurrent/1", sp1.content, ctx, protContentOf(p1.Headers.Protected), sp1Prot, ext, p1.Payload, p1.Signature, true)
+	refCountersignCheck("concurrent/2", sp2.content, ctx, protContentOf(p2.Headers.Protected), sp2Prot, ext, p2.Payload, p2.Signature, true)
 	vReach("end")
 }
